@@ -31,10 +31,69 @@ def run(ck):
                                     "diffs": json.loads(json.dumps(m["diffs"], default=str))[:2]})
     progs, cov, nfaults, nontriv, audited = semcheck.check_all(ck, "C19", 150 if quick else 2500, faults_per_program=0,
                                                                tblgen_sample=(25 if quick else 400))
+    doc_layout_probes(ck)
     ck.count("generated", len(progs) + nfaults, nontriv if not nfaults else set(range(len(nontriv) + nfaults)),
              sample={"files": progs[0].files}, seeded_faults=nfaults,
              coverage=semcheck.cov_summary(cov, ["doc:", "hint:", "classref:", "decl:"]), llvm_tblgen_audit=audited)
     return ck.finish(extra_cov={"traces_validated_against_impl": sum(st["cases"] for st in stats.values())}, **FINISH)
+
+
+def doc_layout_probes(ck):
+    """Doc comments under every kind of line end and "blank" line: the expected text is computed line by line from the
+    property text (the contiguous `//` lines directly above the declaration; a line that is empty or holds only blanks
+    ends the block; so does a code line)."""
+    rng = ck.rng
+    decls = [("class D%d;", 6), ("def d%d;", 4), ("defvar v%d = 1;", 7), ("multiclass M%d { def x; }", 11), ("defset list<Base> S%d = { }", 18)]
+    cases = []
+    seps = ["", " ", "  ", "\t", " \t "]
+    for eol in ("\n", "\r\n"):
+        for blank in seps:
+            for layout in range(6):
+                for di, (decl, off) in enumerate(decls):
+                    k = len(cases)
+                    above = ["// header %d" % k]                    # separated block (must not be shown)
+                    doc = ["// doc one", "//doc two", "///  three"][: 1 + layout % 3]
+                    indent = ["", "  ", "\t"][layout % 3]
+                    lines = ["class Base;"]
+                    if layout < 3:
+                        lines += above + [blank]                  # a blank line (possibly with blanks in it) separates
+                    else:
+                        lines += above + ["def sep%d;" % k]      # a code line separates
+                    lines += [indent + d for d in doc]
+                    lines.append(indent + decl % k)
+                    text = eol.join(lines) + eol
+                    pos = len((eol.join(lines[:-1]) + eol + indent).encode()) + off
+                    want = "\n".join(d.lstrip("/").strip() if False else d[2:].lstrip("/").lstrip() for d in doc)
+                    cases.append((text, pos, want))
+    # fields inside a body (indented, comment block separated by a blank line with the indentation left behind)
+    for eol in ("\n", "\r\n"):
+        for blank in ("", "    ", "\t"):
+            text = eol.join(["class Body {", "    // licence text", blank, "    // the field", "    int bar = 1;", "}"]) + eol
+            pos = text.encode().index(b"bar")
+            cases.append((text, pos, "the field"))
+            text = eol.join(["class Body2 {", "    // not a doc", blank, "    int baz = 1;", "}"]) + eol
+            cases.append((text, text.encode().index(b"baz"), None))
+    res = core.impl(["ws " + json.dumps({"files": {"/main.td": t}, "root": "/main.td", "queries": [["hover", "/main.td", p]]}) for t, p, _ in cases], tag="doc19")
+    mres = core.model(["ws " + json.dumps({"files": {"/main.td": t}, "root": "/main.td", "queries": [["hover", "/main.td", p]]}) for t, p, _ in cases], tag="docm19")
+    ndis = 0
+    for (t, p, want), r, mr in zip(cases, res, mres):
+        if r != mr:
+            ndis += 1
+            if ndis <= 2:
+                ck.broke("correspondence", {"stream": "doc-layouts", "text": t, "pos": p, "impl": r[:300], "model": mr[:300]})
+        try:
+            h = json.loads(r)[0]
+        except Exception:
+            continue
+        got = None if h is None else h.get("document")
+        norm = lambda x: None if x in (None, "") else "\n".join(l.strip() for l in x.split("\n"))
+        if h is None or norm(got) != norm(want):
+            eol = "crlf" if "\r\n" in t else "lf"
+            ck.fail(["C19", "hover-doc", "layout-probe:%s" % eol], "hover shows doc %r, the contiguous comment lines directly above the declaration are %r" % (got, want),
+                    {"files": {"/main.td": t}, "root": "/main.td", "detail": {"pos": p}}, json.dumps(h)[:300], json.dumps(want))
+    st = ck.cov["streams"].setdefault("doc_layouts", {"evaluations": 0, "distinct_nontrivial": 0})
+    st["model_disagreements"] = ndis
+    ck.count("doc_layouts", len(cases), {t for t, _, _ in cases}, sample={"text": cases[7][0], "pos": cases[7][1], "want": cases[7][2]})
 
 
 def replay(ck, path):
